@@ -333,7 +333,7 @@ func CheckEmission(sc *Scenario, o *Outcome) []Diff {
 		} else if p.Kind != "icmp-echo" && ap.Port() != p.DPort {
 			add("dst-arg-port", "WriteTo port %d differs from packet destination port %d", ap.Port(), p.DPort)
 		}
-		if p.IP.Dst.String() != sc.Target && sc.Variant != "sack" {
+		if ta, err := netip.ParseAddr(sc.Target); sc.Variant != "sack" && (err != nil || p.IP.Dst != ta.Unmap()) {
 			add("target", "probe goes to %s, target is %s", p.IP.Dst, sc.Target)
 		}
 		if p.Kind != "icmp-echo" && sc.Variant != "sack" && int(p.DPort) != sc.Port {
